@@ -14,6 +14,7 @@ def l2_part(run, exe_unused, results, env):
     l2lib.run_family(run, exe2, "Note", "C05", ncf, lambda conf: N.consts_of(conf["_c"]), {"RetHonest"}, {"O-ret", "O-lin", "O-prog"})
     exer = build("h_l2r")
     l2lib.random_runs(run, exer, "Note", ncf, 1000 if run.tier == "quick" else 30000, "C05", {"O-ret", "O-lin", "O-prog"})
+    l2lib.generated_notes(run, "C05", {"O-ret", "O-lin", "O-prog"})
 
 
 def main(tier, replay=None):
